@@ -2,6 +2,8 @@
 use vstd::collections::HashMap;
 use std::io::{Read, Write};
 #[derive(Debug)] pub struct Error;
+impl std::fmt::Display for Error { fn fmt(&self, f: &mut std::fmt::Formatter<'_>) -> std::fmt::Result { write!(f, "io error") } }
+impl std::error::Error for Error {}
 pub fn serialize_into<W: Write>(mut w: W, m: &HashMap<String, u64>) -> Result<(), Error> {
     w.write_all(&(m.len() as u64).to_le_bytes()).map_err(|_| Error)?;
     for (k, v) in m.iter() {
